@@ -2,7 +2,7 @@ from .base import *
 from ..prog import OPS
 
 ID = 'C01'
-THEOREMS = ['C01_angle_closed', 'C01_steps_closed', 'C01_new_fast', 'C01_new_general', 'C01_new_total', 'C01_sqrt_sites', 'C01_panics', 'C01_history', 'C01_geonum_closed_pure', 'C01_geonum_closed_encoded', 'C01_geonum_closed_add']
+THEOREMS = ['C01_angle_closed', 'C01_steps_closed', 'C01_new_fast', 'C01_new_general', 'C01_new_total', 'C01_sqrt_sites', 'C01_panics', 'C01_history', 'C01_geonum_closed_pure', 'C01_geonum_closed_encoded', 'C01_geonum_closed_add', 'C01_program_closed', 'C01_program_closed_run', 'C01_okv_def']
 OWNED = set(o for o in OPS if o[0] in 'AGC' and o not in ('FImm', 'UImm'))
 RULE = ('type-directed random programs of 8-40 steps over EVERY public constructor, operator spelling and method of Angle, Geonum and GeoCollection, seeded with in-domain values (magnitudes 0 / [1e-100,1e100], '
         '(p,d) classes incl. negatives, denormals, exact multiples with any divisor, radians, blades to 2^40) and continued on their own results while those stay in the domain; '
@@ -94,5 +94,6 @@ LEVEL_TEXT = ('Kernel-checked theorems about the model: Angle addition, subtract
               'the two sqrt sites (Geonum + Geonum general path, distance_to) never return NaN or a negative magnitude for any input and any libm; inv / normalize / div / invert_circle panic exactly on zero magnitude; '
               'C01_history: canonical-ness is an invariant of every sequence of angle additions, subtractions and step operators (induction over the list). '
               'C01_closure_pure / C01_closure_encoded / C01_closure_add: every Geonum operation that does not call libm, the libm gateways that re-encode a value (dot, cos, sin, project_to_angle) and both exact paths of Geonum + Geonum return a canonical angle for canonical operands. '
+              'C01_program_closed: starting from ANY register file of canonical values, every register written by ANY program over the 80 closed opcodes of the op language shared with the correspondence harness (angle/geonum arithmetic in all spellings, step operators, products, quotients, reflection, wedge, distance, scalar, collections incl. sort) is canonical, for every libm - induction over the instruction list with data flow through registers. '
               'Finite-ness of magnitudes that pass through libm is decided by the whole-program predicate c01_walk on every register (S3 for those legs). Known finding F7 (p*PI overflow) is excluded from C01_new_total by its hypothesis.')
 LEVEL_NOTE = ('Partial for the libm-dependent magnitudes. Trusted: Coq kernel + vm_compute; 4 standard-library axioms; hand-written model validated bit-for-bit each run; harness/emitter/predicates.')
